@@ -103,6 +103,10 @@ def spaces(tier, seed):
                                      "u": UNITS, "sign": [-1, 1], "spell": ["natural"], "xbase": ends}))
     zs = NOW_ZONES_T if T else NOW_ZONES
     sp.append(Product("implicit-now", {"tz": zs, "to": [None] + zs, "inst": range(len(NOW_INSTANTS)), "p": range(len(NOW_PHRASES))}))
+    two_years = [datetime(2023, 1, 1) + timedelta(days=i, hours=23, minutes=59, seconds=59, microseconds=999999) for i in range(731)]
+    sp.append(Product("sweep-base-2023-2024", {"xbase": two_years, "nu": [(1, "month"), (1, "year"), (13, "month"), (1, "day"), (1, "week"),
+                                                                         (1, "decade"), (36, "hour"), (11, "month"), (4, "year")], "sign": [-1, 1]},
+                      note="every day of a non-leap and a leap year as base"))
     if T:
         days = [datetime(1800, 1, 1) + timedelta(days=i, hours=7, minutes=8, seconds=9) for i in range(146462)]
         sp.append(Product("sweep-base", {"xbase": days, "nu": [(1, "month"), (1, "year"), (13, "month"), (1, "day"), (1, "week"),
